@@ -3,6 +3,7 @@
 package signature
 
 import (
+	"github.com/lestrrat-go/jwx/v2/jwk"
 	"context"
 	"strings"
 
@@ -398,4 +399,43 @@ func vpH_c19_obs_verify() {
 	vpAssert(verr == nil, "the order of the signed-field list does not matter for verification")
 	vpAssert(vpUnchanged(rec, brec), "verifying writes nothing into the signature record (the field list keeps its order)")
 	vpAssert(vpUnchanged(step, before) && vpUnchanged(penv, benv) && vpUnchanged(base, bbase), "verifying writes nothing into the step or the env maps")
+}
+
+func init() { vpRegister("c18_otherkeys", vpH_c18_otherkeys) }
+
+// What one private key signs verifies with its public half and with no other
+// key (signature scheme idealised): under key sets that hold the signer's
+// public key - alone or next to others - the signature verifies; under key
+// sets that hold only other keys (same algorithm, another algorithm, none at
+// all) it does not.
+func vpH_c18_otherkeys() {
+	ctx := context.Background()
+	algs := []string{"EdDSA", "ES512", "PS512"}
+	ai := vpInt(0, 2)
+	alg, other := algs[ai], algs[(ai+1+vpInt(0, 1))%3]
+	k := vpSigKey(alg, 1)
+	step := &pipeline.CommandStep{Command: vpStr(1, "a-b")}
+	sig, err := Sign(ctx, k, &CommandStepWithInvariants{CommandStep: *step, RepositoryURL: "r"})
+	vpAssume(err == nil && sig != nil)
+	same, foreign := vpSigKey(alg, 2), vpSigKey(other, 3)
+	var ks jwk.Set
+	want := false
+	switch vpInt(0, 6) {
+	case 0:
+		ks, want = vpKeySetOf(k), true
+	case 1:
+		ks, want = vpKeySetOf(same, k), true
+	case 2:
+		ks, want = vpKeySetOf(foreign, k), true
+	case 3:
+		ks = vpKeySetOf(same)
+	case 4:
+		ks = vpKeySetOf(foreign)
+	case 5:
+		ks = vpKeySetOf()
+	default:
+		ks = vpKeySetOf(foreign, same)
+	}
+	verr := Verify(ctx, sig, ks, &CommandStepWithInvariants{CommandStep: *step, RepositoryURL: "r"})
+	vpAssert((verr == nil) == want, "a signature verifies exactly under key sets that hold the signer's public key")
 }
